@@ -7,7 +7,7 @@ use once_cell::sync::Lazy;
 use std::collections::{HashMap, VecDeque};
 use std::sync::{atomic::AtomicUsize, Arc};
 use std::time::Instant;
-use tokio::io::{split, AsyncReadExt, BufReader, ReadHalf, WriteHalf};
+use tokio::io::{split, AsyncBufReadExt, AsyncReadExt, BufReader, ReadHalf, WriteHalf};
 use tokio::net::TcpStream;
 use tokio::sync::broadcast::Receiver;
 use tokio::sync::mpsc::Sender;
@@ -1218,6 +1218,34 @@ where
                         // This is not an initial message so discard the initial_parsed_ast
                         initial_parsed_ast.take();
 
+                        // Only the wait for the first byte of the next message can be given up
+                        // without losing data: read_message is not cancel safe.
+                        if tokio::time::timeout(idle_client_timeout_duration, self.read.fill_buf())
+                            .await
+                            .is_err()
+                        {
+                            // Client idle in transaction timeout
+                            error_response(&mut self.write, "idle transaction timeout").await?;
+                            error!(
+                                "Client idle in transaction timeout: \
+                                {{ \
+                                    pool_name: {}, \
+                                    username: {}, \
+                                    shard: {:?}, \
+                                    role: \"{:?}\" \
+                                }}",
+                                self.pool_name,
+                                self.username,
+                                query_router.shard(),
+                                query_router.role()
+                            );
+
+                            break;
+                        }
+
+                        // A message has started to arrive (or the client is gone). It gets the
+                        // same allowance to complete; a client that stalls in the middle of a
+                        // message cannot be brought back in step and is disconnected.
                         match tokio::time::timeout(
                             idle_client_timeout_duration,
                             read_message(&mut self.read),
@@ -1234,23 +1262,18 @@ where
                                 return Err(err);
                             }
                             Err(_) => {
-                                // Client idle in transaction timeout
-                                error_response(&mut self.write, "idle transaction timeout").await?;
-                                error!(
-                                    "Client idle in transaction timeout: \
-                                    {{ \
-                                        pool_name: {}, \
-                                        username: {}, \
-                                        shard: {:?}, \
-                                        role: \"{:?}\" \
-                                    }}",
-                                    self.pool_name,
-                                    self.username,
-                                    query_router.shard(),
-                                    query_router.role()
-                                );
+                                self.stats.disconnect();
+                                server.checkin_cleanup().await?;
+                                error_response_terminal(
+                                    &mut self.write,
+                                    "idle transaction timeout",
+                                )
+                                .await?;
 
-                                break;
+                                return Err(Error::ClientError(
+                                    "idle in transaction timeout in the middle of a message"
+                                        .into(),
+                                ));
                             }
                         }
                     }
